@@ -14,7 +14,7 @@ import subprocess
 import sys
 import time
 
-VERIF = os.path.dirname(os.path.dirname(os.path.abspath(__file__)))
+VERIF = os.environ.get("VERIF_HOME") or os.path.dirname(os.path.dirname(os.path.abspath(__file__)))  # VERIF_HOME: run a snapshot of rules/ against the real engines, cache and findings
 REPO = os.environ.get("REPO", "/repo")
 CACHE = os.path.join(VERIF, ".cache")
 CRATES = ["typify_impl", "typify_macro", "typify", "cargo_typify"]
@@ -38,6 +38,9 @@ def facts_dir(repo=None):
     repo = repo or REPO
     if os.path.abspath(repo) == "/repo":
         return os.path.join(VERIF, "facts")
+    if os.environ.get("VERIF_FACTS_BY_HASH"):
+        # self-test batteries: scratch copies come and go, the facts of a given tree are kept (keyed by content)
+        return os.path.join(CACHE, "facts-h" + tree_hash(repo)[:20])
     tag = hashlib.sha256(os.path.abspath(repo).encode()).hexdigest()[:12]
     return os.path.join(CACHE, "facts-" + tag)
 
